@@ -407,6 +407,15 @@ func splitPeriod(mpd *m.MPD, a *asset, cfg *ResponseConfig, wTimes wrapTimes) er
 	startPeriodNr := wTimes.startTimeMS / (periodDur * 1000)
 	endPeriodNr := wTimes.nowMS / (periodDur * 1000)
 	inPeriod := mpd.Periods[0]
+	// Every period gets its own part of the timelines, so take them out before the period is cloned.
+	// Otherwise the complete timelines are copied for every period (quadratic in the timeShiftBufferDepth).
+	inTimelines := make([]*m.SegmentTimelineType, len(inPeriod.AdaptationSets))
+	for aNr, as := range inPeriod.AdaptationSets {
+		if as.SegmentTemplate != nil && as.SegmentTemplate.SegmentTimeline != nil {
+			inTimelines[aNr] = as.SegmentTemplate.SegmentTimeline
+			as.SegmentTemplate.SegmentTimeline = &m.SegmentTimelineType{}
+		}
+	}
 	nrPeriods := endPeriodNr - startPeriodNr + 1
 	periods := make([]*m.Period, 0, nrPeriods)
 	for pNr := startPeriodNr; pNr <= endPeriodNr; pNr++ {
@@ -429,12 +438,12 @@ func splitPeriod(mpd *m.MPD, a *asset, cfg *ResponseConfig, wTimes wrapTimes) er
 				as.SegmentTemplate.StartNumber = Ptr(startNr)
 			case timeLineTime:
 				as.SegmentTemplate.PresentationTimeOffset = pto
-				inS := inAS.SegmentTemplate.SegmentTimeline.S
+				inS := inTimelines[aNr].S
 				periodStart, periodEnd := uint64(pNr*periodDur), uint64((pNr+1)*periodDur)
 				as.SegmentTemplate.SegmentTimeline.S, _ = reduceS(inS, nil, timeScale, periodStart, periodEnd)
 			case timeLineNumber:
 				as.SegmentTemplate.PresentationTimeOffset = pto
-				inS := inAS.SegmentTemplate.SegmentTimeline.S
+				inS := inTimelines[aNr].S
 				startNr := inAS.SegmentTemplate.StartNumber
 				periodStart, periodEnd := uint64(pNr*periodDur), uint64((pNr+1)*periodDur)
 				as.SegmentTemplate.SegmentTimeline.S, as.SegmentTemplate.StartNumber = reduceS(inS, startNr, timeScale, periodStart, periodEnd)
@@ -467,7 +476,7 @@ func reduceS(entries []*m.S, startNr *uint32, timescale int, periodStartS, perio
 		nr = *startNr
 	}
 	outStartNr := nr
-	newS := make([]*m.S, 0, len(entries))
+	var newS []*m.S
 	var currS *m.S
 	for _, e := range entries {
 		if e.T != nil {
